@@ -1001,10 +1001,10 @@ func Spec() *mon.Spec {
 			"values stored are ints and nil (Elvish $nil); equality of results is Go ==",
 		},
 		Phases: []mon.Phase{
-			{Name: "sweep", Quick: 111, Thorough: 3390, Run: runSweep, Batch: 1, Timeout: 10 * time.Minute},
-			{Name: "history", Quick: 400, Thorough: 8000, Run: runHistory, Timeout: 10 * time.Minute},
-			{Name: "tall", Quick: 16, Thorough: 300, Run: runTall, Batch: 1, Timeout: 10 * time.Minute},
-			{Name: "elvish", Quick: 300, Thorough: 6000, Run: runElvish, Timeout: 10 * time.Minute},
+			{Name: "sweep", Quick: 111, Thorough: 1100, Run: runSweep, Batch: 1, Timeout: 10 * time.Minute},
+			{Name: "history", Quick: 400, Thorough: 3000, Run: runHistory, Timeout: 10 * time.Minute},
+			{Name: "tall", Quick: 16, Thorough: 100, Run: runTall, Batch: 1, Timeout: 10 * time.Minute},
+			{Name: "elvish", Quick: 300, Thorough: 2500, Run: runElvish, Timeout: 10 * time.Minute},
 			{Name: "extreme", Quick: 64, Thorough: 640, Run: runExtreme, Timeout: 10 * time.Minute},
 		},
 		Floors: map[string]int{
